@@ -4,7 +4,7 @@
    valid integer text is read as that integer; the deviations are recorded with witnesses.  Everything else is decided by the
    document-level correspondence (documents generated from the schema independently of the library). *)
 From MX Require Import Spec.CharRe Model.SimpleType Model.SimpleTypeThms Model.Parser Gen.SimpleTypes Gen.Code
-  Spec.Particle Spec.Deriv Spec.Equiv Gen.Names Gen.Schema Gen.Templates Gen.Lib Model.Tables Model.AbsSeq Model.AbsSeqC02 Model.Classes Model.SeqMachine Model.AbsBag.
+  Spec.Particle Spec.Deriv Spec.Equiv Gen.Names Gen.Schema Gen.Templates Gen.Lib Model.Tables Model.AbsSeq Model.AbsSeqC02 Model.Classes Model.SeqMachine Model.ChoiceSeq Model.ChoiceClass Model.ChoiceC02 Model.AbsBag.
 From Coq Require Import List String NArith ZArith Bool Sorting.Permutation.
 Import ListNotations.
 Open Scope string_scope.
@@ -48,6 +48,15 @@ Proof.
   intros key x l a mn w I B L. apply (proj1 (cm_row_sound key x l (forallb_In _ _ _ cm_rows_ok9 I))) in L. apply (C02_bag l a mn w B L).
 Qed.
 Print Assumptions C09_valid_children_read_bag.
+Theorem C09_valid_children_read_choice : forall key x l t w, In (key, Some x, Some l) cm_rows -> is_cseq l = true -> slots_of l = Some t -> forallb c02_ok t = true ->
+  Lang (re_of x) w ->
+  Forall (fun o => o = MOk) (couts (cminit t) (map MAdd w)) /\ cverdict_ok (cmrun t (map MAdd w)) = true /\ AbsSeq.names (cordered (ctree (cmrun t (map MAdd w)))) = w.
+Proof.
+  intros key x l t w I Cs St G L. destruct (is_cseq_nodup l t Cs St) as [W ND].
+  apply (proj1 (cm_row_sound key x l (forallb_In _ _ _ cm_rows_ok9 I))) in L. apply (slots_of_lang l t St) in L.
+  destruct (C02_cmachine t w W G ND L) as (A & B & C & _). auto.
+Qed.
+Print Assumptions C09_valid_children_read_choice.
 (* any file: on the sequence machine, whatever children are offered - valid or not - if every add returns normally then the
    children emitted are a permutation of the children of the file: none is dropped, none invented (an add that raises aborts the parse) *)
 Local Opaque mstep.
